@@ -13,6 +13,7 @@ mod oracles;
 mod prog;
 mod props;
 mod refi;
+mod reuse;
 mod rng;
 mod shrink;
 
